@@ -88,12 +88,14 @@ InitContigs ==    \* two sequences (the second: accessible / all N / with a gap)
                               !.baits = OneRowEach(tc, GLen \div 2, GLen \div 2 + 1)]
         /\ par = ParOf(NameTable[n], gap, skip, FALSE, 1, sz, hapx)
 TeloLen == Telo + 12
-TeloGenomes == { << <<1, TeloLen>> >>,                                  \* all N
-                 << <<1, Telo>>, <<0, 12>> >>,                          \* accessible only beyond the telomere guess
-                 << <<0, TeloLen>> >> }                                 \* all accessible (made inaccessible by the exclude file)
+ExAll == << << <<1, 0, TeloLen, "">> >> >>                                \* one exclude file covering the whole sequence
+TeloCases == { << << <<1, TeloLen>> >>, <<>> >>,                          \* all N
+               << << <<1, Telo>>, <<0, 12>> >>, <<>> >>,                  \* accessible only beyond the telomere guess
+               << << <<1, Telo>>, <<0, 12>> >>, ExAll >>,                 \* ... and that excluded
+               << << <<0, TeloLen>> >>, ExAll >> }                        \* all accessible, all of it excluded
 InitTelomere ==   \* a sequence longer than the telomere guess whose access table is empty / short: `if accessible:`
-    \E g \in TeloGenomes, ex \in {<<>>, << << <<1, 0, TeloLen, "">> >> >>}, sz \in Sizes, b2 \in {0, 1} :
-        /\ fs = [Empty EXCEPT !.genome = << [c |-> 1, runs |-> g] >>, !.excl = ex,
+    \E tc \in TeloCases, sz \in Sizes, b2 \in {0, 1} :
+        /\ fs = [Empty EXCEPT !.genome = << [c |-> 1, runs |-> tc[1]] >>, !.excl = tc[2],
                               !.baits = IF b2 = 0 THEN << Lab(<<1, Telo + 6, Telo + 7, "">>) >>
                                         ELSE << Lab(<<1, Telo + 4, Telo + 5, "">>), Lab(<<1, Telo + 10, Telo + 11, "">>) >>]
         /\ par = ParOf(NameTable[1], 0, TRUE, FALSE, 1, sz, FALSE)
@@ -133,11 +135,12 @@ Antitarget ==
     /\ done' = done \cup {"antitarget"} /\ UNCHANGED par
 FlatReference ==
     /\ pc = "run" /\ "antitarget" \in done /\ "reference" \notin done
-    /\ LET rows == RefRowsA(Rec)
-           rec(p) == [c |-> rows[p][1], s |-> rows[p][2], e |-> rows[p][3], g |-> rows[p][4], lok |-> TRUE]
-       IN fs' = [fs EXCEPT !.reference = [p \in 1..Len(rows) |->
-                    [c |-> rows[p][1], s |-> rows[p][2], e |-> rows[p][3], g |-> rows[p][4], lok |-> TRUE,
-                     l4 |-> 4 * FlatWantA(Rec, rec(p))]]]
+    /\ LET r == Rec
+           rows == RefRowsA(r)
+           ref == [p \in 1..Len(rows) |->
+                     LET o == [c |-> rows[p][1], s |-> rows[p][2], e |-> rows[p][3], g |-> rows[p][4], lok |-> TRUE]
+                     IN [o EXCEPT !.lok = TRUE] @@ [l4 |-> 4 * FlatWantA(r, o)]]
+       IN fs' = [fs EXCEPT !.reference = SubSeq(ref, 1, Len(rows))]    \* (SubSeq: evaluate the table here, once)
     /\ done' = done \cup {"reference"} /\ pc' = "done" /\ UNCHANGED par
 Next == Access \/ Target \/ Antitarget \/ FlatReference
 Spec == Init /\ [][Next]_vars
